@@ -177,6 +177,9 @@ def suite_traversal(ctx, res, n):
     def gen(depth):
         r = rng.random()
         if depth <= 0 or r < 0.3:
+            if counter[0] and rng.random() < 0.35:
+                # the SAME PaintGlyph again (equal as a value: frozen dataclasses compare and hash by value) elsewhere in the tree
+                return P.PaintGlyph(glyph=f"g{rng.randint(1, counter[0])}", paint=P.PaintSolid(Color(0, 0, 0, 1.0)))
             counter[0] += 1
             return P.PaintGlyph(glyph=f"g{counter[0]}", paint=P.PaintSolid(Color(0, 0, 0, 1.0)))
         if r < 0.55:
@@ -202,11 +205,17 @@ def suite_traversal(ctx, res, n):
         counter[0] = 0
         root = gen(rng.randint(1, 5))
         ops.append({"op": "tree-glyphs", "tree": to_wire(root)})
-        real.append({"dfs": [[c.paint.glyph, [fr(v) for v in c.transform]] for c in root.depth_first() if isinstance(c.paint, P.PaintGlyph)]})
+        real.append({"dfs": [[c.paint.glyph, [fr(v) for v in c.transform]] for c in root.depth_first() if isinstance(c.paint, P.PaintGlyph)],
+                     "bfs": [[c.paint.glyph, [fr(v) for v in c.transform]] for c in root.breadth_first() if isinstance(c.paint, P.PaintGlyph)]})
     for o, r, m in zip(ops, real, ctx.driver.run(ops)):
         res.count(key=("tree", stable_hash(o)), nontrivial=len(r["dfs"]) >= 2)
         if r["dfs"] != m.get("dfs"):
             res.add_tie_break("Paint.depth_first", o, m, r)
+        # breadth_first visits the same (glyph, accumulated transform) occurrences, in level order: as a multiset it is the preorder list
+        if sorted(map(repr, r["bfs"])) != sorted(map(repr, m.get("dfs", []))):
+            res.add_tie_break("Paint.breadth_first visits other (glyph, transform) occurrences than the paint tree has", o, m, r)
+            res.add_cex("Paint.breadth_first skips or repeats a PaintGlyph occurrence (clip boxes, COLRv0 layers and glyf components are built from this walk)",
+                        {"call": "Paint.breadth_first", "tree": o["tree"], "visited": r["bfs"], "occurrences": m.get("dfs")}, {"site": "c03-bfs", "tree": stable_hash(o)})
     if ops:
         res.sample({"suite": "traversal", "tree": ops[-1]["tree"], "impl": real[-1]})
 
